@@ -11,7 +11,7 @@ typedef struct S_struct_gdstk__FlexPathElement Elem;
 #define RR 3
 static OI iabs(OI a) { return a < 0 ? -a : a; }
 int main(void) {
-  Path path; memset(&path, 0, sizeof path);
+  Path path = {0};
   OI sx[NP], sy[NP], hw[NE][NP], of[NE][NP], e0[NE], e1[NE];
   NUM* sp = malloc(sizeof(NUM) * 2 * NP);
   for (int i = 0; i < NP; i++) { sx[i] = (OI)nd_range(-RR, RR); sy[i] = (OI)nd_range(-RR, RR); sp[2 * i] = NUM_OF_INT(sx[i]); sp[2 * i + 1] = NUM_OF_INT(sy[i]); }
